@@ -1,6 +1,7 @@
 import AasVerif.Lemmas.Lit.Cs
 import AasVerif.Lemmas.Lit.Go
 import AasVerif.Lemmas.Lit.Py
+import AasVerif.Lemmas.Lit.Cpp
 /-!
 # C19 — Emitted literals denote exactly the original values
 
@@ -128,5 +129,85 @@ example : enc_py .none false false [0, 39, 0xDC00, 10] = .ok (Text.ofString "\"\
 example : dec_py false (Text.ofString "\"\\x00'\\udc00\\n\"") = some [0, 39, 0xDC00, 10] := by decide
 /-- the reader rejects what the unfixed generator emitted: a raw NUL, a raw lone surrogate -/
 example : dec_py false [39, 0, 39] = none ∧ dec_py false [39, 0xD800, 39] = none := by decide
+
+/-! ## C++
+
+Wide literals (`std::wstring`, `wchar_t` = 32 bit as with g++ on Linux) denote the code points;
+narrow literals are defined for ASCII text only (the `@require` of `string_literal`). The reader
+implements the greedy `\x` escape and the concatenation of adjacent literals, which the generator
+uses for surrogate code points (`L"\xd800" L"…"`). -/
+
+theorem cppw_roundtrip (s : Text) (hs : ∀ c ∈ s, c < 0x110000) :
+    ∃ lit, enc_cppw s = .ok lit ∧ dec_cppw lit = some s := by
+  refine ⟨[76, 34] ++ s.flatMap escCppW ++ [34], ?_, ?_⟩
+  · unfold enc_cppw stripped
+    rw [show ([76, 34] ++ s.flatMap escCppW ++ [34] : Text) = 76 :: [34] ++ s.flatMap escCppW ++ [34] from rfl,
+      isStripped_wrap 76 34 [34] _ (by decide) (by decide)]; rfl
+  · have hst : storable ([76, 34] ++ s.flatMap escCppW ++ [34]) = true :=
+      storable_wrap _ _ _ (okSrc_list_small _ (by decide))
+        (okSrc_flatMap escCppW _ cppw_okSrc s hs) (okSrc_list_small _ (by decide))
+    unfold dec_cppw
+    rw [if_pos hst]
+    have hr := run_of_runs (runs_flatMap (stepCpp true 34) escCppW (fun c => [c]) [34] (· < 0x110000)
+      (fun c tail v hc h => cppw_char c tail v hc h) (Runs.done (by simp [stepCpp, skipWs])) s hs)
+    rw [flatMap_single] at hr
+    simpa using hr
+
+theorem cppn_roundtrip (s : Text) (hs : ∀ c ∈ s, c ≤ 127) :
+    ∃ lit, enc_cppn s = .ok lit ∧ dec_cppn lit = some s := by
+  refine ⟨[34] ++ s.flatMap escCppW ++ [34], ?_, ?_⟩
+  · unfold enc_cppn
+    have hall : s.all (fun c => decide (c ≤ 127)) = true := by
+      simp only [List.all_eq_true, decide_eq_true_eq]; exact hs
+    rw [if_pos hall, mapRes_cppn s hs]
+    simp only [stripped]
+    rw [isStripped_quoted 34 _ (by decide)]; rfl
+  · have hs' : ∀ c ∈ s, c < 0x110000 := fun c hc => by have := hs c hc; omega
+    have hst : storable ([34] ++ s.flatMap escCppW ++ [34]) = true :=
+      storable_wrap _ _ _ (okSrc_list_small _ (by decide))
+        (okSrc_flatMap escCppW _ cppw_okSrc s hs') (okSrc_list_small _ (by decide))
+    unfold dec_cppn
+    rw [if_pos hst]
+    have hr := run_of_runs (runs_flatMap (stepCpp false 34) escCppW (fun c => [c]) [34] (· ≤ 127)
+      (fun c tail v hc h => cppn_char c tail v hc h) (Runs.done (by simp [stepCpp, skipWs])) s hs)
+    rw [flatMap_single] at hr
+    simpa using hr
+
+/-- Non-ASCII text: the precondition of the narrow `string_literal` reports it. -/
+theorem cppn_error_outside (s : Text) (h : ∃ c ∈ s, 127 < c) : enc_cppn s = .err "ViolationError" := by
+  unfold enc_cppn
+  have hall : ¬ (s.all (fun c => decide (c ≤ 127)) = true) := by
+    simp only [List.all_eq_true, decide_eq_true_eq]
+    intro hall
+    obtain ⟨c, hc, hgt⟩ := h
+    have := hall c hc; omega
+  rw [if_neg hall]
+
+theorem cpp_needs_escaping_iff (s : Text) :
+    needs_cpp s = true ↔ enc_cppw s ≠ .ok ([76, 34] ++ s ++ [34]) := by
+  have henc : enc_cppw s = .ok ([76, 34] ++ s.flatMap escCppW ++ [34]) := by
+    unfold enc_cppw stripped
+    rw [show ([76, 34] ++ s.flatMap escCppW ++ [34] : Text) = 76 :: [34] ++ s.flatMap escCppW ++ [34] from rfl,
+      isStripped_wrap 76 34 [34] _ (by decide) (by decide)]; rfl
+  rw [henc]
+  have := flatMap_eq_self_iff escCppW needsCharCpp cpp_needs_false cpp_needs_true s
+  have hn : needs_cpp s = s.any needsCharCpp := rfl
+  rw [hn]
+  constructor
+  · intro hn heq
+    simp only [Res.ok.injEq, List.cons_append, List.nil_append, List.cons.injEq, true_and,
+      List.append_cancel_right_eq] at heq
+    rw [this.1 heq] at hn; exact absurd hn (by decide)
+  · intro hne
+    cases hb : s.any needsCharCpp with
+    | true => rfl
+    | false => exact absurd (by rw [this.2 hb]) hne
+
+example : enc_cppw [1, 49, 0xD800, 97, 0xE9, 0x4E2D] =
+    .ok (Text.ofString "L\"\\0011\\xd800\" L\"a\\351\\u4e2d\"") := by decide
+example : dec_cppw (Text.ofString "L\"\\0011\\xd800\" L\"a\\351\\u4e2d\"") = some [1, 49, 0xD800, 97, 0xE9, 0x4E2D] := by decide
+/-- what the unfixed generator emitted for "\x01" + "1": one merged escape -/
+example : dec_cppw (Text.ofString "L\"\\x11\"") = some [0x11] := by decide
+example : dec_cppw (Text.ofString "L\"\\ud800\"") = none := by decide
 
 end AasVerif.Props.C19
